@@ -39,7 +39,7 @@ var nonPointerOperands = map[string]string{
 }
 
 func c11(c *core.Ctx, r *core.Report) {
-	r.Explain("R11.gen: in pointer.genInstr every ssa.Instruction kind has a case (panicking default; MultiConvert by build mode); the case of every pointer-relevant kind emits at least one constraint (copy/genLoad/genStore/addressOf/genOffsetAddr/genCall/typeAssert/genConv) and reads each pointer-carrying operand of the kind (operand table from go/ssa; reads counted in the case body and in the call-graph cone of the helpers it calls); kinds that may stay empty carry upstream's reason. R11.noeffect: the fork's soundness switch Config.NoEffectFunctions is written only by AddNoEffectFunction, which is called only from DoPointerAnalysis inside the loop over PointerConfig.UnsafeNoEffectFunctions, and findSummary is its only reader. R11.sizeof: in genInstr a value copy whose size is a literal constant occurs only in the arm of a kind whose value is always one node (interface, slice, pointer, function); any other arm must size the copy by the value's type. R11.underlying: see underlyingRule. R11.queries: query registration covers Params, FreeVars and Operands() of every instruction of every filtered function.")
+	r.Explain("R11.gen: in pointer.genInstr every ssa.Instruction kind has a case (panicking default; MultiConvert by build mode); the case of every pointer-relevant kind emits at least one constraint (copy/genLoad/genStore/addressOf/genOffsetAddr/genCall/typeAssert/genConv) and reads each pointer-carrying operand of the kind (operand table from go/ssa; reads counted in the case body and in the call-graph cone of the helpers it calls); kinds that may stay empty carry upstream's reason. R11.noeffect: the fork's soundness switch Config.NoEffectFunctions is written only by AddNoEffectFunction, which is called only from DoPointerAnalysis inside the loop over PointerConfig.UnsafeNoEffectFunctions, and findSummary is its only reader. R11.noeffect.pkg: the package-wide no-effect filter of findIntrinsic / findSummary compares the package path for equality; no strings/regexp/path matching function receives a value derived from (*types.Package).Path(). R11.sizeof: in genInstr a value copy whose size is a literal constant occurs only in the arm of a kind whose value is always one node (interface, slice, pointer, function); any other arm must size the copy by the value's type. R11.underlying: see underlyingRule. R11.queries: query registration covers Params, FreeVars and Operands() of every instruction of every filtered function.")
 	r.NotDecided("aliasing soundness itself (agreement with runtime aliasing needs ground truth); the solver and HVN optimisation.")
 	d := c.FindDispatch("internal/pointer", "analysis.genInstr", core.SSAPath, "Instruction")
 	if d == nil {
@@ -341,6 +341,7 @@ func c11(c *core.Ctx, r *core.Report) {
 	} else {
 		r.Fail("infra.anchor-unresolved", "R11.queries|addInstructionQuery", "", "not found")
 	}
+	c11runtime(c, r)
 	// ---- R11.underlying
 	underlyingRule(c, r, "R11.underlying", func(t core.TypeTest) bool {
 		if t.PkgRel != "internal/pointer" {
